@@ -85,7 +85,7 @@ theorem predict_direct (V : Vals α) (d : α) (sci : Scitype) (wl : Nat) (t0 : I
            List.zipWith (fun h v => (t0 + y.length - 1 + h, v)) fh
              (ests.map fun e => applyEst e.2 (lastInst (ofLists d y X) y.length (nc + 1) wl (sci == .tabular)))) := by
   have hy : y ≠ [] := by intro h; subst h; simp at hlen; omega
-  unfold predict fittedFc
+  unfold predict predictCore fittedFc
   simp only [requiredFh, setFh_pred true fh fhPred hfp hck, allOut_of_pos fh hpos, bind, Except.bind,
     Bool.not_true, Bool.false_eq_true, if_false, Option.getD_some,
     lastWindow_eq t0 wl y X nc hr hlen hwl, xCols_of y X nc hr hy, pure, Except.pure]
@@ -105,7 +105,7 @@ theorem predict_multioutput (V : Vals α) (d : α) (sci : Scitype) (wl : Nat) (t
            List.zipWith (fun h v => (t0 + y.length - 1 + h, v)) fh
              ((List.range fh.length).map fun j => f (lastInst (ofLists d y X) y.length (nc + 1) wl (sci == .tabular)) j)) := by
   have hy : y ≠ [] := by intro h; subst h; simp at hlen; omega
-  unfold predict fittedFc
+  unfold predict predictCore fittedFc
   simp only [requiredFh, setFh_pred true fh fhPred hfp hck, allOut_of_pos fh hpos, bind, Except.bind,
     Bool.not_true, Bool.false_eq_true, if_false, Option.getD_some,
     lastWindow_eq t0 wl y X nc hr hlen hwl, xCols_of y X nc hr hy, pure, Except.pure]
@@ -128,7 +128,7 @@ theorem predict_recursive (V : Vals α) (d : α) (sci : Scitype) (wl : Nat) (t0 
              ((recTraceFrom (applyEst e) (ofLists d y (fullX X Xp)) y.length (nc + 1) wl (sci == .tabular) d [] hm.toNat).map
                Prod.snd).getD (h - 1).toNat V.zero)) := by
   have hm1 : 1 ≤ hm := hpos hm (List.mem_of_getLast? hlast)
-  unfold predict fittedFc
+  unfold predict predictCore fittedFc
   simp only [requiredFh, hset, allOut_of_pos fh hpos, bind, Except.bind,
     Bool.not_true, Bool.false_eq_true, if_false, Option.getD_some,
     lastWindow_eq t0 wl y X nc hr hlen hwl, pure, Except.pure,
@@ -146,7 +146,7 @@ theorem predict_dirrec (V : Vals α) (sci : Scitype) (wl : Nat) (t0 : Int) (y : 
              ((dirrecTrace (sci == .tabular) (y.drop (y.length - wl)) (ests.map fun e => applyEst e.2) []).map Prod.snd)) := by
   have hr : Rect y none 0 := by simp [Rect]
   have hyl : (y.drop (y.length - wl)).length = wl := by simp; omega
-  unfold predict fittedFc
+  unfold predict predictCore fittedFc
   simp only [requiredFh, setFh_pred true fh fhPred hfp hck, allOut_of_pos fh hpos, bind, Except.bind,
     Bool.not_true, Bool.false_eq_true, if_false, Option.getD_some,
     lastWindow_eq t0 wl y none 0 hr hlen hwl, pure, Except.pure]
